@@ -148,8 +148,65 @@ func (q *queueCtx) noWaitGet(call *ast.CallExpr) bool {
 	return removes > 0
 }
 
+// sliceQueueField: sel is a field of the receiver that is a slice of interface values — a queue kept
+// in a slice instead of a linked list. Returns the lane digit.
+func (q *queueCtx) sliceQueueField(sel *ast.SelectorExpr) (string, bool) {
+	if q.fi == nil {
+		return "", false
+	}
+	id, ok := ast.Unparen(sel.X).(*ast.Ident)
+	if !ok || id.Name != q.recv {
+		return "", false
+	}
+	fv, ok := q.fi.Pkg.TypesInfo.ObjectOf(sel.Sel).(*types.Var)
+	if !ok || !fv.IsField() {
+		return "", false
+	}
+	sl, ok := fv.Type().Underlying().(*types.Slice)
+	if !ok {
+		return "", false
+	}
+	if _, isIface := sl.Elem().Underlying().(*types.Interface); !isIface {
+		return "", false
+	}
+	digit := ""
+	if nm := sel.Sel.Name; len(nm) > 0 && nm[len(nm)-1] >= '0' && nm[len(nm)-1] <= '9' {
+		digit = nm[len(nm)-1:]
+	}
+	return digit, true
+}
+
 func (q *queueCtx) norm(e ast.Expr) string {
 	s := types.ExprString(e)
+	// a queue kept in a slice: len(this.items) is its size, this.items the queue
+	if q.fi != nil {
+		repl := map[string]string{}
+		ast.Inspect(e, func(n ast.Node) bool {
+			switch v := n.(type) {
+			case *ast.CallExpr:
+				if id, ok := v.Fun.(*ast.Ident); ok && id.Name == "len" && len(v.Args) == 1 {
+					if sel, ok := ast.Unparen(v.Args[0]).(*ast.SelectorExpr); ok {
+						if d, ok := q.sliceQueueField(sel); ok {
+							repl[types.ExprString(v)] = q.recv + ".queue" + d + ".Size()"
+						}
+					}
+				}
+			case *ast.SelectorExpr:
+				if d, ok := q.sliceQueueField(v); ok {
+					repl[types.ExprString(v)] = q.recv + ".queue" + d
+				}
+			}
+			return true
+		})
+		keys := make([]string, 0, len(repl))
+		for k := range repl {
+			keys = append(keys, k)
+		}
+		sort.Slice(keys, func(i, j int) bool { return len(keys[i]) > len(keys[j]) })
+		for _, k := range keys {
+			s = strings.ReplaceAll(s, k, repl[k])
+		}
+	}
 	// fields by role, wherever they are nested under the receiver (this.fifo.items is the queue's
 	// list, this.fifo.capacity its bound): the element list is the field of type list.LinkedList,
 	// the bound an integer field whose name says capacity
@@ -229,7 +286,7 @@ func (q *queueCtx) norm(e ast.Expr) string {
 
 func (q *queueCtx) config() paths.Config {
 	info := q.fi.Pkg.TypesInfo
-	in := newInliner(q.p, q.fi, nil)
+	in := newInliner(q.p, q.fi, func(fn *types.Func) bool { return q.sliceOp(fn) != "" })
 	in.hoistEffects = true
 	return paths.Config{
 		Info:   info,
@@ -357,10 +414,32 @@ func (q *queueCtx) config() paths.Config {
 						}
 					}
 					defer func() { out = append(out, paths.Event{Kind: "RETVAL", Arg: arg, Pos: v.Pos(), Node: node}) }()
+				case *ast.AssignStmt:
+					// a queue kept in a slice, operated on in place
+					if len(v.Lhs) == 1 && len(v.Rhs) == 1 {
+						if ls, ok := ast.Unparen(v.Lhs[0]).(*ast.SelectorExpr); ok {
+							if d, ok := q.sliceQueueField(ls); ok {
+								switch kind := sliceQueueOp(info, ls, v.Rhs[0]); kind {
+								case "ADD", "REMOVEFIRST", "CLEAR", "REMOVELAST", "ADDFIRST":
+									out = append(out, paths.Event{Kind: kind, Arg: d, Pos: v.Pos()})
+								}
+							}
+						}
+					}
 				case *ast.CallExpr:
 					sel, ok := ast.Unparen(v.Fun).(*ast.SelectorExpr)
 					if !ok {
 						return true
+					}
+					// a method of the queue that is one slice operation (pushBack, popFront)
+					if fn, _ := info.Uses[sel.Sel].(*types.Func); fn != nil {
+						if id, ok := ast.Unparen(sel.X).(*ast.Ident); ok && id.Name == q.recv {
+							if op := q.sliceOp(fn); op != "" {
+								parts := strings.SplitN(op, ":", 2)
+								out = append(out, paths.Event{Kind: parts[0], Arg: parts[1], Pos: v.Pos()})
+								return true
+							}
+						}
 					}
 					x := q.norm(sel.X)
 					name := sel.Sel.Name
@@ -1197,4 +1276,89 @@ func c11Ctors(p *core.Program, r *core.Report) {
 func isHoistDef(n ast.Node, call *ast.CallExpr) bool {
 	as, ok := n.(*ast.AssignStmt)
 	return ok && len(as.Rhs) == 1 && as.Rhs[0] == ast.Expr(call)
+}
+
+
+// sliceQueueOp: what `field = rhs` does to a queue kept in the slice field.
+func sliceQueueOp(info *types.Info, field *ast.SelectorExpr, rhs ast.Expr) string {
+	ft := types.ExprString(field)
+	switch v := ast.Unparen(rhs).(type) {
+	case *ast.Ident:
+		if v.Name == "nil" {
+			return "CLEAR"
+		}
+	case *ast.CallExpr:
+		if id, ok := v.Fun.(*ast.Ident); ok && id.Name == "append" && len(v.Args) == 2 && !v.Ellipsis.IsValid() && types.ExprString(v.Args[0]) == ft {
+			return "ADD"
+		}
+	case *ast.SliceExpr:
+		if types.ExprString(v.X) != ft {
+			return ""
+		}
+		lo, hasLo := int64(0), v.Low != nil
+		if hasLo {
+			k, ok := constIntOf(info, v.Low)
+			if !ok {
+				return ""
+			}
+			lo = k
+		}
+		switch {
+		case hasLo && lo == 1 && v.High == nil:
+			return "REMOVEFIRST"
+		case v.High != nil && (!hasLo || lo == 0):
+			if k, ok := constIntOf(info, v.High); ok && k == 0 {
+				return "CLEAR"
+			}
+			return "REMOVELAST"
+		}
+	}
+	return ""
+}
+
+// sliceOp: fn is a method of the queue type whose body is one operation on a slice-kept queue
+// (optionally guarded by an emptiness test that answers nil): "ADD:<lane>", "REMOVEFIRST:<lane>", …
+func (q *queueCtx) sliceOp(fn *types.Func) string {
+	cf := q.p.FuncOf(fn)
+	if cf == nil || cf.Decl.Body == nil || cf.Decl.Recv == nil || fn.Exported() {
+		return ""
+	}
+	cq := &queueCtx{p: q.p, fi: cf, recv: recvName(cf)}
+	info := cf.Pkg.TypesInfo
+	op := ""
+	other := false
+	ast.Inspect(cf.Decl.Body, func(n ast.Node) bool {
+		switch v := n.(type) {
+		case *ast.AssignStmt:
+			if len(v.Lhs) == 1 && len(v.Rhs) == 1 {
+				if ls, ok := ast.Unparen(v.Lhs[0]).(*ast.SelectorExpr); ok {
+					if d, ok := cq.sliceQueueField(ls); ok {
+						if k := sliceQueueOp(info, ls, v.Rhs[0]); k != "" {
+							if k == "CLEAR" && op != "" {
+								return true // dropping the emptied slice after the removal
+							}
+							if op != "" && op != k+":"+d {
+								other = true
+							}
+							op = k + ":" + d
+						}
+						return true
+					}
+				}
+			}
+		case *ast.CallExpr:
+			if id, ok := v.Fun.(*ast.Ident); ok && (id.Name == "len" || id.Name == "append" || id.Name == "cap") {
+				return true
+			}
+			if tv, ok := info.Types[v.Fun]; ok && tv.IsType() {
+				return true
+			}
+			other = true // calls anything else: not a plain slice operation
+		}
+		return true
+	})
+	if other {
+		return ""
+	}
+	return op
 }
